@@ -329,6 +329,117 @@ theorem splitOn_renderHead (lines : List Bytes) (h : ∀ l ∈ lines, lf ∉ l) 
     · simp at hm
       rcases hm with rfl | rfl <;> simp [cr, lf]
 
+/-! ### the §7.1 reference decoder reads the encoder output back -/
+
+theorem readHex_render (rest : Bytes) (hrest : rest.head?.bind hexVal = none) : ∀ (ds : List Nat) (v k : Nat),
+    (∀ d ∈ ds, d < 16) → readHex (renderHex ds ++ rest) v k = (hexValue ds v, k + ds.length, rest) := by
+  intro ds
+  induction ds with
+  | nil =>
+    intro v k _
+    cases rest with
+    | nil => simp [renderHex, readHex, hexValue]
+    | cons b r =>
+      simp only [List.head?_cons, Option.bind_some] at hrest
+      simp [renderHex, readHex, hexValue, hrest]
+  | cons d ds ih =>
+    intro v k hd
+    obtain ⟨h1, h2, _⟩ := hexDigit_facts d (hd d (by simp))
+    have := ih (v * 16 + d) (k + 1) (fun x hx => hd x (by simp [hx]))
+    simp only [renderHex, List.map_cons, List.cons_append, readHex, h1, h2] at this ⊢
+    rw [this]
+    simp only [hexValue, List.foldl_cons, List.length_cons]
+    congr 2
+    omega
+
+theorem skipLine_crlf (r : Bytes) : skipLine (cr :: lf :: r) = some r := by
+  simp [skipLine]
+
+/-- one encoded chunk is consumed exactly and its data appended to the output -/
+theorem rfcDechunk_chunk (ds : List Nat) (d rest acc : Bytes) (fuel : Nat) (hd : ∀ x ∈ ds, x < 16)
+    (hne : ds ≠ []) (hval : hexValue ds 0 = d.length) (hd0 : d ≠ []) :
+    rfcDechunk (fuel + 1) (renderHex ds ++ [cr, lf] ++ d ++ [cr, lf] ++ rest) acc
+      = rfcDechunk fuel rest (acc ++ d) := by
+  have hrh := readHex_render ([cr, lf] ++ d ++ [cr, lf] ++ rest)
+    (by simp only [List.cons_append, List.head?_cons, Option.bind_some]; decide) ds 0 0 hd
+  have hlen : 0 < ds.length := List.length_pos_iff.mpr hne
+  have hdl : 0 < d.length := List.length_pos_iff.mpr hd0
+  have e : renderHex ds ++ [cr, lf] ++ d ++ [cr, lf] ++ rest
+      = renderHex ds ++ ([cr, lf] ++ d ++ [cr, lf] ++ rest) := by simp
+  rw [e]
+  conv => lhs; unfold rfcDechunk
+  rw [hrh, hval]
+  simp only [Nat.zero_add]
+  have h0 : ¬ ds.length = 0 := by omega
+  have hn0 : ¬ d.length = 0 := by omega
+  have hsk : skipLine ([cr, lf] ++ d ++ [cr, lf] ++ rest) = some (d ++ [cr, lf] ++ rest) := by
+    simpa using skipLine_crlf (d ++ [cr, lf] ++ rest)
+  simp only [h0, if_false, hsk, hn0]
+  have h1 : ¬ (d ++ [cr, lf] ++ rest).length < d.length + 2 := by simp
+  have h2 : ((d ++ [cr, lf] ++ rest).drop d.length).take 2 = [cr, lf] := by simp
+  have h3 : (d ++ [cr, lf] ++ rest).drop (d.length + 2) = rest := by
+    have : d ++ [cr, lf] ++ rest = (d ++ [cr, lf]) ++ rest := by simp
+    rw [this]
+    have hl : (d ++ [cr, lf]).length = d.length + 2 := by simp
+    rw [← hl, List.drop_left]
+  have h4 : (d ++ [cr, lf] ++ rest).take d.length = d := by simp
+  simp only [h1, if_false, h2, ne_eq, not_true_eq_false, h3, h4]
+
+theorem rfcDechunk_last (next acc : Bytes) (fuel : Nat) :
+    rfcDechunk (fuel + 1) ([48, cr, lf, cr, lf] ++ next) acc = some (acc, next) := by
+  have hrh := readHex_render ([cr, lf, cr, lf] ++ next)
+    (by simp only [List.cons_append, List.head?_cons, Option.bind_some]; decide) [0] 0 0 (by decide)
+  have e : ([48, cr, lf, cr, lf] ++ next : Bytes) = renderHex [0] ++ ([cr, lf, cr, lf] ++ next) := by
+    simp [renderHex, hexDigitLC]
+  rw [e]
+  conv => lhs; unfold rfcDechunk
+  rw [hrh]
+  simp [hexValue, skipLine, skipTrailers]
+
+theorem rfcDechunk_stream (next : Bytes) : ∀ (pieces : List Bytes) (acc : Bytes) (fuel : Nat),
+    (∀ p ∈ pieces, chunkSizeOk p.length) → (chunkStream true pieces true).length < fuel →
+    rfcDechunk fuel (chunkStream true pieces true ++ next) acc = some (acc ++ pieces.flatten, next) := by
+  intro pieces
+  induction pieces with
+  | nil =>
+    intro acc fuel _ hf
+    cases fuel with
+    | zero => omega
+    | succ f =>
+      simp only [chunkStream, chunkClose, List.flatMap_nil, List.nil_append, if_true, List.flatten_nil,
+        List.append_nil]
+      exact rfcDechunk_last next acc f
+  | cons p rest ih =>
+    intro acc fuel hp hf
+    have hrest : ∀ q ∈ rest, chunkSizeOk q.length := fun q hq => hp q (by simp [hq])
+    have hsplit : chunkStream true (p :: rest) true = chunkAppend true p ++ chunkStream true rest true := by
+      simp [chunkStream]
+    rw [hsplit] at hf ⊢
+    by_cases hemp : p = []
+    · subst hemp
+      simp only [chunkAppend, List.isEmpty_nil, if_true, List.nil_append, List.flatten_cons] at hf ⊢
+      exact ih acc fuel hrest hf
+    · have hne : p.isEmpty = false := by
+        cases p with
+        | nil => exact absurd rfl hemp
+        | cons _ _ => rfl
+      have hlt : p.length < 16 ^ 64 := by
+        have := hp p (by simp)
+        unfold chunkSizeOk at this
+        calc p.length < 2 ^ 62 := this
+          _ ≤ 16 ^ 64 := by decide
+      obtain ⟨ds, h1, h2, h3, h4, _⟩ := hexDigits_spec 64 p.length (by decide) hlt
+      simp only [chunkAppend, hne, if_true, Bool.false_eq_true, if_false, chunkLenLine, encHex, h1] at hf ⊢
+      cases fuel with
+      | zero => omega
+      | succ f =>
+        have e : renderHex ds ++ [cr, lf] ++ p ++ [cr, lf] ++ chunkStream true rest true ++ next
+            = renderHex ds ++ [cr, lf] ++ p ++ [cr, lf] ++ (chunkStream true rest true ++ next) := by simp
+        have hf' : (chunkStream true rest true).length < f := by
+          simp only [List.length_append, List.length_cons, List.length_nil] at hf; omega
+        rw [e, rfcDechunk_chunk ds p _ acc f h2 h4 h3 hemp, ih (acc ++ p) f hrest hf']
+        simp
+
 /-! ### the framing decision delimits exactly the intended body -/
 section framing
 open Hdrs
@@ -366,29 +477,30 @@ theorem drop_suffix (w next : Bytes) : (w ++ next).drop ((w ++ next).length - ne
 theorem rfcBody_chunked (q : Bytes) (ps : List Bytes) (next : Bytes)
     (hq : chunkSizeOk q.length) (hp : ∀ p ∈ ps, chunkSizeOk p.length) :
     rfcBody .chunked (chunkFirst q ++ chunkStream true ps true ++ next) = some (q ++ ps.flatten, next) := by
-  have key : ckFeed refCfg {} (chunkFirst q ++ chunkStream true ps true ++ next)
-      = { mode := .done, out := q ++ ps.flatten, ka := true, after := next.length } := by
-    by_cases he : q = []
-    · subst he
-      simpa [chunkFirst] using ckFeed_chunkStream refCfg rfl (by decide) next ps [] hp
-    · have hne : q.isEmpty = false := by
-        cases q with
-        | nil => exact absurd rfl he
-        | cons _ _ => rfl
-      have hgl := goodLine_hexBytes q.length hq
-      have : chunkFirst q ++ chunkStream true ps true ++ next
-          = (hexBytesLc q.length ++ [cr, lf] ++ q ++ [cr, lf]) ++ (chunkStream true ps true ++ next) := by
-        simp [chunkFirst, hne]
-      rw [this, ckFeed_append]
-      have h1 := ckFeed_chunk refCfg rfl hgl he [] true 0
-      simp only [List.nil_append] at h1
-      have h0 : ({} : CkSt) = { mode := .hdr [] false, out := [], ka := true, after := 0 } := rfl
-      rw [h0, h1]
-      exact ckFeed_chunkStream refCfg rfl (by decide) next ps q hp
-  simp only [rfcBody, key, drop_suffix]
-  simp
-
-
+  show rfcDechunk ((chunkFirst q ++ chunkStream true ps true ++ next).length + 1)
+    (chunkFirst q ++ chunkStream true ps true ++ next) [] = some (q ++ ps.flatten, next)
+  by_cases he : q = []
+  · subst he
+    have := rfcDechunk_stream next ps [] ((chunkStream true ps true ++ next).length + 1) hp
+      (by simp only [List.length_append]; omega)
+    simpa [chunkFirst] using this
+  · have hne : q.isEmpty = false := by
+      cases q with
+      | nil => exact absurd rfl he
+      | cons _ _ => rfl
+    have hlt : q.length < 256 ^ 64 := by
+      unfold chunkSizeOk at hq
+      calc q.length < 2 ^ 62 := hq
+        _ ≤ 256 ^ 64 := by decide
+    obtain ⟨ds, h1, h2, h3, h4, _⟩ := hexBytesGo_spec 64 q.length (by decide) hlt
+    have e : chunkFirst q ++ chunkStream true ps true ++ next
+        = renderHex ds ++ [cr, lf] ++ q ++ [cr, lf] ++ (chunkStream true ps true ++ next) := by
+      simp [chunkFirst, hne, hexBytesLc, h1]
+    rw [e, rfcDechunk_chunk ds q _ [] _ h2 h4 h3 he]
+    have := rfcDechunk_stream next ps ([] ++ q)
+      ((renderHex ds ++ [cr, lf] ++ q ++ [cr, lf] ++ (chunkStream true ps true ++ next)).length) hp
+      (by simp only [List.length_append, List.length_cons, List.length_nil]; omega)
+    simpa using this
 
 def st0 (d : RespIn) : RespSt :=
   { status := d.status, hdrs := d.hdrs, body := d.queued, finished := d.finished,
@@ -422,9 +534,45 @@ def FramingGoal (d : RespIn) (date next : Bytes) : Prop :=
 theorem has_of_get_some {hs : List Hdr} {k v : Bytes} (h : get hs k = some v) : has hs k = !v.isEmpty := by
   simp [has, h]
 
+theorem ltrim_of_head {v : Bytes} (h : ∀ b, v.head? = some b → isOws b = false) : ltrim v = v := by
+  cases v with
+  | nil => rfl
+  | cons b t => simp [ltrim, List.dropWhile, h b rfl]
+
+theorem ltrim_natToDec (n : Nat) : ltrim (natToDec n) = natToDec n := by
+  apply ltrim_of_head
+  intro b hb
+  have hall := natToDec_all_digit n
+  rw [List.all_eq_true] at hall
+  have hm : b ∈ natToDec n := List.mem_of_mem_head? hb
+  have := hall b hm
+  simp only [isDigit, Bool.and_eq_true, decide_eq_true_eq] at this
+  have h1 : b ≠ 32 := by intro e; subst e; revert this; decide
+  have h2 : b ≠ 9 := by intro e; subst e; revert this; decide
+  simp [isOws, sp, ht, h1, h2]
+
+theorem vals_of_get {hs : List Hdr} {k v : Bytes} (h : Hdrs.get hs k = some v) (hv : v.isEmpty = false) :
+    Hdrs.vals hs k = [ltrim v] := by
+  simp [Hdrs.vals, h, hv]
+
+theorem vals_of_not_has {hs : List Hdr} {k : Bytes} (h : Hdrs.has hs k = false) : Hdrs.vals hs k = [] := by
+  unfold Hdrs.has at h
+  unfold Hdrs.vals
+  cases hg : Hdrs.get hs k with
+  | none => rfl
+  | some v =>
+    simp only [hg] at h
+    have : v.isEmpty = true := by simpa using h
+    simp [this]
+
+theorem finalHdrs_vals (d : RespIn) (st : RespSt) (k' : Bytes)
+    (h1 : sameName nConnection k' = false) (h2 : sameName nContentEncoding k' = false) :
+    Hdrs.vals (finalHdrs d st) k' = Hdrs.vals st.hdrs k' := by
+  unfold Hdrs.vals; rw [finalHdrs_get d st k' h1 h2]
+
 theorem rf_none (hd : Bool) (status : Nat) (hs : List Hdr)
     (h : hd = true ∨ status = 204 ∨ status = 304) : rfcFraming hd status hs = .none := by
-  unfold rfcFraming
+  unfold rfcFraming framingOf
   rcases h with h | h | h <;> simp [h]
 
 theorem rf_len (d : RespIn) (st : RespSt) (n : Nat) (h1 : ¬ st.status / 100 = 1) (h204 : st.status ≠ 204)
@@ -432,31 +580,29 @@ theorem rf_len (d : RespIn) (st : RespSt) (n : Nat) (h1 : ¬ st.status / 100 = 1
     (hcl : get st.hdrs nContentLength = some (natToDec n)) :
     rfcFraming false st.status (finalHdrs d st) = .length n := by
   unfold rfcFraming
-  rw [finalHdrs_has d st _ nm_CO_TE nm_CE_TE, finalHdrs_get d st _ nm_CO_CL nm_CE_CL, hte, hcl]
-  simp [h1, h204, h304, natToDec_ne_nil, natToDec_all_digit, decNat_natToDec]
+  rw [finalHdrs_vals d st _ nm_CO_TE nm_CE_TE, finalHdrs_vals d st _ nm_CO_CL nm_CE_CL,
+    vals_of_not_has hte, vals_of_get hcl (natToDec_ne_nil n), ltrim_natToDec]
+  simp [framingOf, h1, h204, h304, natToDec_ne_nil, natToDec_all_digit, decNat_natToDec]
 
 theorem rf_chunked (d : RespIn) (st : RespSt) (h1 : ¬ st.status / 100 = 1) (h204 : st.status ≠ 204)
-    (h304 : st.status ≠ 304) (hte : has st.hdrs nTransferEncoding = true)
+    (h304 : st.status ≠ 304) (hcl : has st.hdrs nContentLength = false)
     (hv : get st.hdrs nTransferEncoding = some (ofString "chunked")) :
     rfcFraming false st.status (finalHdrs d st) = .chunked := by
   unfold rfcFraming
-  rw [finalHdrs_has d st _ nm_CO_TE nm_CE_TE, finalHdrs_get d st _ nm_CO_TE nm_CE_TE, hte, hv]
-  simp [h1, h204, h304]
+  rw [finalHdrs_vals d st _ nm_CO_TE nm_CE_TE, finalHdrs_vals d st _ nm_CO_CL nm_CE_CL,
+    vals_of_not_has hcl, vals_of_get hv (by decide)]
+  have : ltrim (ofString "chunked") = ofString "chunked" := by decide
+  rw [this]
+  simp [framingOf, h1, h204, h304]
 
 theorem rf_close (d : RespIn) (st : RespSt) (h1 : ¬ st.status / 100 = 1) (h204 : st.status ≠ 204)
     (h304 : st.status ≠ 304) (hte : has st.hdrs nTransferEncoding = false)
     (hcl : has st.hdrs nContentLength = false) :
     rfcFraming false st.status (finalHdrs d st) = .close := by
   unfold rfcFraming
-  rw [finalHdrs_has d st _ nm_CO_TE nm_CE_TE, finalHdrs_get d st _ nm_CO_CL nm_CE_CL, hte]
-  simp only [h1, h204, h304, Bool.false_eq_true, decide_false, Bool.or_self, if_false]
-  unfold has at hcl
-  cases hg : get st.hdrs nContentLength with
-  | none => rfl
-  | some v =>
-    simp only [hg] at hcl
-    have : v.isEmpty = true := by simpa using hcl
-    simp [this]
+  rw [finalHdrs_vals d st _ nm_CO_TE nm_CE_TE, finalHdrs_vals d st _ nm_CO_CL nm_CE_CL,
+    vals_of_not_has hte, vals_of_not_has hcl]
+  simp [framingOf, h1, h204, h304]
 
 theorem intended_bodiless (d : RespIn) (h : d.meth = .head ∨ isBodiless d.status = true) :
     intendedBody d = [] := by
@@ -514,7 +660,7 @@ theorem goal_len (d : RespIn) (date next : Bytes) (st : RespSt) (hw : writePrepa
 
 theorem goal_chunked (d : RespIn) (date next : Bytes) (st : RespSt) (hw : writePrepare d = st)
     (hs : st.status = d.status) (hm : d.meth ≠ .head) (h1 : ¬ d.status / 100 = 1) (hb : isBodiless d.status = false)
-    (hte : has st.hdrs nTransferEncoding = true)
+    (hcl : has st.hdrs nContentLength = false)
     (hv : get st.hdrs nTransferEncoding = some (ofString "chunked")) (hch : st.sendChunked = true)
     (hfin : st.finished = false) (hbody : st.body = chunkFirst d.queued)
     (hint : intendedBody d = d.queued ++ d.pieces.flatten)
@@ -526,7 +672,7 @@ theorem goal_chunked (d : RespIn) (date next : Bytes) (st : RespSt) (hw : writeP
   have hf : rfcFraming (decide (d.meth = .head)) st.status (finalHdrs d st) = .chunked := by
     have : decide (d.meth = .head) = false := by simp [hm]
     rw [this]
-    exact rf_chunked d st (by rw [hs]; exact h1) (by rw [hs]; exact h204) (by rw [hs]; exact h304) hte hv
+    exact rf_chunked d st (by rw [hs]; exact h1) (by rw [hs]; exact h204) (by rw [hs]; exact h304) hcl hv
   unfold FramingGoal respond
   simp only [hw, hf, hfin, hch, hclose, hbody, hint]
   refine ⟨hs, by simp, by simp, by simp, ?_, ?_, by intro h; exact absurd h h204⟩
@@ -625,7 +771,7 @@ theorem framing_normal (d : RespIn) (date next : Bytes) (h : HandlerSane d) (hm 
           rw [hwp]; simp [wpFraming, st0, hfin', hcl', h.noTE, h.noUpgrade, hnt, hv]
         have hce : (ofString "chunked").isEmpty = false := by decide
         refine goal_chunked d date next _ hw rfl hm h1xx hb ?_ ?_ rfl rfl rfl ?_ h.closes h.sizes
-        · simp [has_append _ _ _ _ hce, nm_TE_TE]
+        · simp [has_append _ _ _ _ hce, nm_TE_CL, hcl']
         · exact get_append_fresh _ _ _ hce h.noTE
         · simp [hint, hfin']
       · have hv' : d.ver11 = false := by simpa using hv
@@ -843,10 +989,6 @@ end framing
 
 /-! ### nothing in the header section can start a new line -/
 section clean
-
-def NoCRLF (b : Bytes) : Prop := cr ∉ b ∧ lf ∉ b
-
-def HdrsClean (hs : List Hdr) : Prop := ∀ h ∈ hs, NoCRLF h.key ∧ NoCRLF h.value
 
 theorem NoCRLF.append {a b : Bytes} (ha : NoCRLF a) (hb : NoCRLF b) : NoCRLF (a ++ b) :=
   ⟨fun h => (List.mem_append.mp h).elim ha.1 hb.1, fun h => (List.mem_append.mp h).elim ha.2 hb.2⟩
@@ -1086,5 +1228,722 @@ theorem urldecodePath_printable : ∀ (s : Bytes), (∀ b ∈ s, 32 ≤ b ∧ b 
     rcases List.mem_cons.mp hx with rfl | hx
     · exact h _ (by simp)
     · exact ih (fun y hy => h y (List.mem_cons_of_mem _ hy)) x hx
+
+/-! ### store invariant, wire-level decoding, repeated fields -/
+
+theorem keys_update (hs : List Hdr) (k v : Bytes) : (Hdrs.update hs k v).map (·.key) = hs.map (·.key) := by
+  unfold Hdrs.update
+  induction hs with
+  | nil => rfl
+  | cons x t ih =>
+    simp only [List.map_cons]
+    rw [ih]
+    split <;> rfl
+
+theorem noDup_keys (hs : List Hdr) :
+    Hdrs.NoDup hs ↔ (hs.map (·.key)).Pairwise (fun a b => Hdrs.sameName a b = false) := by
+  unfold Hdrs.NoDup
+  rw [List.pairwise_map]
+
+theorem keysOk_keys (hs : List Hdr) : KeysOk hs ↔ ∀ k ∈ hs.map (·.key), k ≠ [] ∧ colon ∉ k := by
+  unfold KeysOk
+  simp
+
+theorem storeOk_update {hs : List Hdr} (k v : Bytes) (h : StoreOk hs) : StoreOk (Hdrs.update hs k v) := by
+  unfold StoreOk at *
+  rw [noDup_keys, keysOk_keys, keys_update, ← noDup_keys, ← keysOk_keys]
+  exact h
+
+theorem get_none_all {hs : List Hdr} {k : Bytes} (h : Hdrs.get hs k = none) :
+    ∀ x ∈ hs, Hdrs.sameName x.key k = false := by
+  unfold Hdrs.get at h
+  cases hf : hs.find? (fun h => Hdrs.sameName h.key k) with
+  | some x => simp [hf] at h
+  | none =>
+    intro x hx
+    have := List.find?_eq_none.mp hf x hx
+    simpa using this
+
+theorem storeOk_snoc {hs : List Hdr} (k v : Bytes) (h : StoreOk hs) (hg : Hdrs.get hs k = none)
+    (hk : k ≠ [] ∧ colon ∉ k) : StoreOk (hs ++ [⟨k, v⟩]) := by
+  refine ⟨?_, ?_⟩
+  · unfold Hdrs.NoDup
+    rw [List.pairwise_append]
+    refine ⟨h.1, by simp, ?_⟩
+    intro a ha b hb
+    simp at hb
+    subst hb
+    exact get_none_all hg a ha
+  · intro x hx
+    rcases List.mem_append.mp hx with h1 | h1
+    · exact h.2 x h1
+    · simp at h1; subst h1; exact hk
+
+theorem storeOk_set {hs : List Hdr} (k v : Bytes) (h : StoreOk hs) (hk : k ≠ [] ∧ colon ∉ k) :
+    StoreOk (Hdrs.set hs k v) := by
+  unfold Hdrs.set
+  split
+  · exact storeOk_update k v h
+  · rename_i hn
+    have : Hdrs.get hs k = none := by
+      cases hg : Hdrs.get hs k with
+      | none => rfl
+      | some x => simp [hg] at hn
+    exact storeOk_snoc k v h this hk
+
+theorem storeOk_unset {hs : List Hdr} (k : Bytes) (h : StoreOk hs) : StoreOk (Hdrs.unset hs k) := by
+  unfold Hdrs.unset
+  split
+  · exact storeOk_update k [] h
+  · exact h
+
+theorem storeOk_append {hs : List Hdr} (k v : Bytes) (h : StoreOk hs) (hk : k ≠ [] ∧ colon ∉ k) :
+    StoreOk (Hdrs.append hs k v) := by
+  unfold Hdrs.append
+  split
+  · exact h
+  · cases hg : Hdrs.get hs k with
+    | some old =>
+      simp only []
+      split <;> exact storeOk_update k _ h
+    | none => exact storeOk_snoc k v h hg hk
+
+theorem storeOk_insert {hs : List Hdr} (k v : Bytes) (h : StoreOk hs) (hk : k ≠ [] ∧ colon ∉ k) :
+    StoreOk (Hdrs.insert hs k v) := by
+  unfold Hdrs.insert
+  split
+  · exact h
+  · cases hg : Hdrs.get hs k with
+    | some old =>
+      simp only []
+      split <;> exact storeOk_update k _ h
+    | none => exact storeOk_snoc k v h hg hk
+
+theorem storeOk_nil : StoreOk [] := ⟨by simp [Hdrs.NoDup], by intro x hx; simp at hx⟩
+
+theorem kCL : nContentLength ≠ [] ∧ colon ∉ nContentLength := by decide
+theorem kTE : nTransferEncoding ≠ [] ∧ colon ∉ nTransferEncoding := by decide
+theorem kCO : nConnection ≠ [] ∧ colon ∉ nConnection := by decide
+theorem kCT : nContentType ≠ [] ∧ colon ∉ nContentType := by decide
+theorem kWA : nWwwAuthenticate ≠ [] ∧ colon ∉ nWwwAuthenticate := by decide
+
+theorem errKeep_storeOk (d : RespIn) : StoreOk (errKeep d) := by
+  unfold errKeep
+  split
+  · split
+    · split
+      · exact storeOk_nil
+      · exact storeOk_snoc _ _ storeOk_nil (by simp [Hdrs.get]) kWA
+    · exact storeOk_nil
+  · exact storeOk_nil
+
+theorem wpStatus_storeOk (d : RespIn) (h : StoreOk d.hdrs) : StoreOk (wpStatus d).hdrs := by
+  by_cases hb : isBodiless d.status = true
+  · have hcases : d.status = 204 ∨ d.status = 205 ∨ d.status = 304 := by
+      simp only [isBodiless, Bool.or_eq_true, decide_eq_true_eq] at hb
+      rcases hb with (h1 | h1) | h1
+      · exact Or.inl h1
+      · exact Or.inr (Or.inl h1)
+      · exact Or.inr (Or.inr h1)
+    rcases hcases with h1 | h1 | h1
+    · rw [wpStatus_2045 d (Or.inl h1)]; exact storeOk_unset _ (storeOk_unset _ h)
+    · rw [wpStatus_2045 d (Or.inr h1)]; exact storeOk_unset _ (storeOk_unset _ h)
+    · rw [wpStatus_304 d h1]; exact storeOk_unset _ h
+  · by_cases he : (400 ≤ d.status && d.status < 600 && errdocApplies d) = true
+    · have hr : (400 ≤ d.status && d.status < 600) = true := by
+        simp only [Bool.and_eq_true] at he ⊢; exact he.1
+      have ha : errdocApplies d = true := by
+        simp only [Bool.and_eq_true] at he; exact he.2
+      rw [wpStatus_err d hr ha]
+      exact storeOk_set _ _ (errKeep_storeOk d) kCT
+    · rw [wpStatus_normal d (by simpa using hb) (by simpa using he)]
+      exact h
+
+theorem wpFraming_storeOk (d : RespIn) (st : RespSt) (h : StoreOk st.hdrs) : StoreOk (wpFraming d st).hdrs := by
+  unfold wpFraming
+  repeat' split
+  all_goals first
+    | exact h
+    | exact storeOk_set _ _ h kCL
+    | exact storeOk_append nTransferEncoding (ofString "chunked") h kTE
+
+theorem wpHead_storeOk (d : RespIn) (st : RespSt) (h : StoreOk st.hdrs) : StoreOk (wpHead d st).hdrs := by
+  unfold wpHead
+  split
+  · simp only [bodyClear]; exact storeOk_unset _ h
+  · exact h
+
+theorem finalHdrs_storeOk (d : RespIn) (st : RespSt) (h : StoreOk st.hdrs) : StoreOk (finalHdrs d st) := by
+  unfold finalHdrs
+  simp only []
+  repeat' split
+  all_goals first
+    | exact h
+    | exact storeOk_set _ _ h kCO
+    | exact storeOk_unset _ h
+    | exact storeOk_unset _ (storeOk_set _ _ h kCO)
+
+theorem respond_storeOk (d : RespIn) (date : Bytes) (h : StoreOk d.hdrs) : StoreOk (respond d date).hdrs := by
+  unfold respond writePrepare
+  exact finalHdrs_storeOk d _ (wpHead_storeOk d _ (wpFraming_storeOk d _ (wpStatus_storeOk d h)))
+
+/-- with one entry per name, scanning every entry finds what the first-match lookup finds -/
+theorem filter_eq_find (hs : List Hdr) (k : Bytes) (h : Hdrs.NoDup hs) :
+    hs.filter (fun x => Hdrs.sameName x.key k) = (hs.find? (fun x => Hdrs.sameName x.key k)).toList := by
+  induction hs with
+  | nil => rfl
+  | cons x t ih =>
+    unfold Hdrs.NoDup at h
+    rw [List.pairwise_cons] at h
+    simp only [List.filter_cons, List.find?_cons]
+    by_cases hx : Hdrs.sameName x.key k = true
+    · simp only [hx, if_true, Option.toList_some]
+      congr 1
+      apply List.filter_eq_nil_iff.mpr
+      intro y hy hyk
+      have := h.1 y hy
+      rw [Hdrs.sameName_false_iff] at this
+      rw [Hdrs.sameName_iff] at hx hyk
+      exact this (hx.trans hyk.symm)
+    · simp only [hx, Bool.false_eq_true, if_false]
+      exact ih h.2
+
+
+
+theorem takeLine_append : ∀ (l r : Bytes), lf ∉ l → takeLine (l ++ lf :: r) = some (l, r)
+  | [], r, _ => by simp [takeLine]
+  | b :: t, r, h => by
+    have hb : b ≠ lf := fun e => h (by simp [e])
+    have ht : lf ∉ t := fun e => h (by simp [e])
+    simp [takeLine, hb, takeLine_append t r ht]
+
+theorem stripCR_snoc (l : Bytes) : stripCR (l ++ [cr]) = some l := by
+  simp [stripCR]
+
+theorem splitHead_render : ∀ (lines : List Bytes) (fuel : Nat) (rest : Bytes),
+    (∀ l ∈ lines, lf ∉ l ∧ l ≠ []) → lines.length < fuel →
+    splitHead fuel (renderHead lines ++ rest) = some (lines, rest)
+  | [], fuel, rest, _, hf => by
+    cases fuel with
+    | zero => omega
+    | succ f =>
+      have : renderHead [] ++ rest = [cr] ++ lf :: rest := by simp [renderHead]
+      rw [this]
+      unfold splitHead
+      rw [takeLine_append [cr] rest (by decide)]
+      simp [stripCR]
+  | l :: ls, fuel, rest, h, hf => by
+    cases fuel with
+    | zero => omega
+    | succ f =>
+      have hl := h l (by simp)
+      have e : renderHead (l :: ls) ++ rest = (l ++ [cr]) ++ lf :: (renderHead ls ++ rest) := by
+        simp [renderHead]
+      rw [e]
+      unfold splitHead
+      have hlf : lf ∉ l ++ [cr] := by
+        intro hm
+        rcases List.mem_append.mp hm with h1 | h1
+        · exact hl.1 h1
+        · simp [cr, lf] at h1
+      rw [takeLine_append _ _ hlf]
+      simp only [stripCR_snoc]
+      have hne : l.isEmpty = false := by
+        cases l with
+        | nil => exact absurd rfl hl.2
+        | cons _ _ => rfl
+      simp only [hne, Bool.false_eq_true, if_false]
+      rw [splitHead_render ls f rest (fun x hx => h x (by simp [hx])) (by simp at hf; omega)]
+
+theorem takeWhile_ne_append (k : Bytes) (c : UInt8) (r : Bytes) (h : c ∉ k) :
+    (k ++ c :: r).takeWhile (· ≠ c) = k ∧ (k ++ c :: r).dropWhile (· ≠ c) = c :: r := by
+  induction k with
+  | nil => simp [List.takeWhile, List.dropWhile]
+  | cons b t ih =>
+    have hb : b ≠ c := fun e => h (by simp [e])
+    have ht : c ∉ t := fun e => h (by simp [e])
+    have := ih ht
+    simp only [List.cons_append, List.takeWhile_cons, List.dropWhile_cons, ne_eq, hb, not_false_eq_true,
+      decide_true, if_true]
+    exact ⟨by rw [this.1], this.2⟩
+
+theorem parseField_render (k v : Bytes) (hk : k ≠ [] ∧ colon ∉ k) :
+    parseField (k ++ [colon, sp] ++ v) = some (k, ltrim v) := by
+  have e : k ++ [colon, sp] ++ v = k ++ colon :: (sp :: v) := by simp
+  obtain ⟨h1, h2⟩ := takeWhile_ne_append k colon (sp :: v) hk.2
+  unfold parseField
+  rw [e]
+  simp only [h1, h2]
+  have hne : k.isEmpty = false := by
+    cases k with
+    | nil => exact absurd rfl hk.1
+    | cons _ _ => rfl
+  simp [hne, ltrim, List.dropWhile, isOws]
+
+theorem parseStatus_all : ∀ s, s < 1000 → 100 ≤ s →
+    parseStatusLine (ofString "HTTP/1.1 " ++ statusText s) = some s ∧
+    parseStatusLine (ofString "HTTP/1.0 " ++ statusText s) = some s := by
+  decide +kernel
+
+theorem renderHead_length (lines : List Bytes) : lines.length < (renderHead lines).length := by
+  induction lines with
+  | nil => simp [renderHead]
+  | cons l t ih =>
+    have : renderHead (l :: t) = l ++ [cr, lf] ++ renderHead t := by simp [renderHead]
+    rw [this]
+    simp only [List.length_append, List.length_cons, List.length_nil]
+    omega
+
+/-- the fields of the header section as (name, value) pairs, in wire order -/
+def headFields (hs : List Hdr) (date : Bytes) (tag : Option Bytes) : List (Bytes × Bytes) :=
+  (hs.filter fieldVisible).map (fun h => (h.key, h.value))
+    ++ (if Hdrs.has hs nDate then [] else [(ofString "Date", date)])
+    ++ (match tag with
+        | some t => if Hdrs.has hs nServer then [] else [(ofString "Server", t)]
+        | none => [])
+
+theorem headLines_eq (ver11 : Bool) (status : Nat) (hs : List Hdr) (date : Bytes) (tag : Option Bytes) :
+    headLines ver11 status hs date tag
+      = ((if ver11 then ofString "HTTP/1.1 " else ofString "HTTP/1.0 ") ++ statusText status)
+        :: (headFields hs date tag).map (fun f => f.1 ++ [colon, sp] ++ f.2) := by
+  have e1 : ∀ x : Bytes, ofString "Date: " ++ x = ofString "Date" ++ [colon, sp] ++ x := fun x => by
+    have : (ofString "Date: " : Bytes) = ofString "Date" ++ [colon, sp] := by decide
+    rw [this]
+  have e2 : ∀ x : Bytes, ofString "Server: " ++ x = ofString "Server" ++ [colon, sp] ++ x := fun x => by
+    have : (ofString "Server: " : Bytes) = ofString "Server" ++ [colon, sp] := by decide
+    rw [this]
+  have e3 : (hs.filter fieldVisible).map renderField
+      = ((hs.filter fieldVisible).map (fun h => (h.key, h.value))).map (fun f => f.1 ++ [colon, sp] ++ f.2) := by
+    simp [List.map_map, Function.comp_def, renderField]
+  unfold headLines headFields
+  rw [e3]
+  cases tag with
+  | none => by_cases h : Hdrs.has hs nDate = true <;> simp [h, e1]
+  | some t =>
+    by_cases h : Hdrs.has hs nDate = true <;> by_cases h2 : Hdrs.has hs nServer = true <;>
+      simp [h, h2, e1, e2]
+
+theorem mapM_parse (fl : List (Bytes × Bytes)) (h : ∀ f ∈ fl, f.1 ≠ [] ∧ colon ∉ f.1) :
+    (fl.map (fun f => f.1 ++ [colon, sp] ++ f.2)).mapM parseField = some (fl.map fun f => (f.1, ltrim f.2)) := by
+  induction fl with
+  | nil => rfl
+  | cons f t ih =>
+    have := ih (fun x hx => h x (by simp [hx]))
+    simp only [List.map_cons, List.mapM_cons, parseField_render f.1 f.2 (h f (by simp)), this]
+    rfl
+
+theorem headFields_keys (hs : List Hdr) (date : Bytes) (tag : Option Bytes) (hk : KeysOk hs) :
+    ∀ f ∈ headFields hs date tag, f.1 ≠ [] ∧ colon ∉ f.1 := by
+  intro f hf
+  unfold headFields at hf
+  rcases List.mem_append.mp hf with h1 | h1
+  · rcases List.mem_append.mp h1 with h2 | h2
+    · obtain ⟨x, hx, rfl⟩ := List.mem_map.mp h2
+      exact hk x (List.mem_filter.mp hx).1
+    · split at h2
+      · simp at h2
+      · simp at h2; subst h2
+        exact (by decide : (ofString "Date" : Bytes) ≠ [] ∧ colon ∉ (ofString "Date" : Bytes))
+  · cases tag with
+    | none => simp at h1
+    | some t =>
+      simp only [] at h1
+      split at h1
+      · simp at h1
+      · simp at h1; subst h1
+        exact (by decide : (ofString "Server" : Bytes) ≠ [] ∧ colon ∉ (ofString "Server" : Bytes))
+
+theorem lower_c_not_x : ∀ b : UInt8, toLower b = 99 → (b &&& 0xdf) ≠ 88 := by
+  apply uint8_forall; decide +kernel
+theorem lower_t_not_x : ∀ b : UInt8, toLower b = 116 → (b &&& 0xdf) ≠ 88 := by
+  apply uint8_forall; decide +kernel
+
+/-- a stored field named `k` (k not an X- name) is on the wire exactly when its value is non-blank -/
+theorem visible_of_same (x : Hdr) (k : Bytes) (c : UInt8) (ktl : Bytes) (hkl : k.map toLower = c :: ktl)
+    (hc : ∀ b : UInt8, toLower b = c → (b &&& 0xdf) ≠ 88) (hx : Hdrs.sameName x.key k = true) :
+    fieldVisible x = !x.value.isEmpty := by
+  rw [Hdrs.sameName_iff] at hx
+  unfold Hdrs.nm at hx
+  rw [hkl] at hx
+  cases hkey : x.key with
+  | nil => rw [hkey] at hx; simp at hx
+  | cons b t =>
+    rw [hkey] at hx
+    simp only [List.map_cons, List.cons.injEq] at hx
+    have := hc b hx.1
+    simp [fieldVisible, hkey, this]
+
+theorem fieldVals_headFields (hs : List Hdr) (date : Bytes) (tag : Option Bytes) (k : Bytes) (c : UInt8)
+    (ktl : Bytes) (hnd : Hdrs.NoDup hs) (hkl : k.map toLower = c :: ktl)
+    (hc : ∀ b : UInt8, toLower b = c → (b &&& 0xdf) ≠ 88)
+    (hdate : eqIcase (ofString "Date") k = false) (hsrv : eqIcase (ofString "Server") k = false) :
+    fieldVals ((headFields hs date tag).map fun f => (f.1, ltrim f.2)) k = Hdrs.vals hs k := by
+  have hvis : fieldVals (((hs.filter fieldVisible).map (fun h => (h.key, h.value))).map fun f => (f.1, ltrim f.2)) k
+      = Hdrs.vals hs k := by
+    unfold fieldVals
+    simp only [List.map_map, List.filter_map, Function.comp_def]
+    have e1 : (hs.filter fieldVisible).filter (fun x => eqIcase x.key k)
+        = (hs.filter (fun x => Hdrs.sameName x.key k)).filter fieldVisible := by
+      simp only [List.filter_filter, Hdrs.sameName]
+      congr 1
+      funext x
+      exact Bool.and_comm _ _
+    rw [e1, filter_eq_find hs k hnd]
+    unfold Hdrs.vals Hdrs.get
+    cases hf : hs.find? (fun x => Hdrs.sameName x.key k) with
+    | none => simp
+    | some x =>
+      have hx : Hdrs.sameName x.key k = true := by
+        have := List.find?_some hf
+        simpa using this
+      have hv := visible_of_same x k c ktl hkl hc hx
+      by_cases he : x.value.isEmpty = true
+      · simp [hv, he]
+      · simp [hv, he]
+  unfold headFields
+  rw [List.map_append, List.map_append]
+  have happ : ∀ (a b : List (Bytes × Bytes)), fieldVals (a ++ b) k = fieldVals a k ++ fieldVals b k := by
+    intro a b; simp [fieldVals]
+  rw [happ, happ, hvis]
+  have hd0 : fieldVals ((if Hdrs.has hs nDate then [] else [(ofString "Date", date)]).map
+      fun (f : Bytes × Bytes) => (f.1, ltrim f.2)) k = [] := by
+    split <;> simp [fieldVals, hdate]
+  have hs0 : fieldVals ((match tag with
+        | some t => if Hdrs.has hs nServer then [] else [(ofString "Server", t)]
+        | none => []).map fun (f : Bytes × Bytes) => (f.1, ltrim f.2)) k = [] := by
+    cases tag with
+    | none => simp [fieldVals]
+    | some t => simp only []; split <;> simp [fieldVals, hsrv]
+  rw [hd0, hs0]
+  simp
+
+/-- the client reading the bytes recovers status and fields, and frames the rest exactly as the
+    header store says -/
+theorem wireDecode_head (d : RespIn) (date after : Bytes) (isHead : Bool) (h200 : 100 ≤ d.status)
+    (h1000 : d.status < 1000) (hso : StoreOk d.hdrs) (hc : HdrsClean d.hdrs) (hd : NoCRLF date)
+    (ht : ∀ t, d.serverTag = some t → NoCRLF t) :
+    wireDecode isHead ((respond d date).head ++ after)
+      = (rfcBody (rfcFraming isHead (respond d date).status (respond d date).hdrs) after).map
+          fun br => ((respond d date).status,
+            (headFields (respond d date).hdrs date d.serverTag).map (fun f => (f.1, ltrim f.2)), br.1, br.2) := by
+  have hst : (respond d date).status = d.status := by
+    show (writePrepare d).status = d.status
+    unfold writePrepare wpHead
+    split <;> simp [bodyClear, wpFraming_status, wpStatus_status]
+  have hfin := respond_storeOk d date hso
+  have hcl := respond_hdrs_clean d date hc
+  have hlines := headLines_clean d.ver11 (respond d date).status (respond d date).hdrs date d.serverTag hcl hd ht
+  have heq := headLines_eq d.ver11 (respond d date).status (respond d date).hdrs date d.serverTag
+  have hhead : (respond d date).head
+      = renderHead (headLines d.ver11 (respond d date).status (respond d date).hdrs date d.serverTag) := rfl
+  have hkeys := headFields_keys (respond d date).hdrs date d.serverTag hfin.2
+  have hne : ∀ l ∈ headLines d.ver11 (respond d date).status (respond d date).hdrs date d.serverTag,
+      lf ∉ l ∧ l ≠ [] := by
+    intro l hl
+    refine ⟨(hlines l hl).2, ?_⟩
+    rw [heq] at hl
+    rcases List.mem_cons.mp hl with rfl | hl
+    · cases d.ver11 <;> simp [ofString]
+    · obtain ⟨f, _, rfl⟩ := List.mem_map.mp hl
+      simp
+  have hsplit := splitHead_render _ (((respond d date).head ++ after).length + 1) after hne (by
+    have := renderHead_length (headLines d.ver11 (respond d date).status (respond d date).hdrs date d.serverTag)
+    rw [hhead]; simp only [List.length_append]; omega)
+  rw [← hhead] at hsplit
+  have hpst : parseStatusLine ((if d.ver11 then ofString "HTTP/1.1 " else ofString "HTTP/1.0 ")
+      ++ statusText (respond d date).status) = some (respond d date).status := by
+    rw [hst]
+    have := parseStatus_all d.status h1000 h200
+    cases d.ver11
+    · simpa using this.2
+    · simpa using this.1
+  have hmap := mapM_parse (headFields (respond d date).hdrs date d.serverTag) hkeys
+  have hvCL := fieldVals_headFields (respond d date).hdrs date d.serverTag nContentLength 99
+    ((nContentLength.map toLower).tail) hfin.1 (by decide) lower_c_not_x (by decide) (by decide)
+  have hvTE := fieldVals_headFields (respond d date).hdrs date d.serverTag nTransferEncoding 116
+    ((nTransferEncoding.map toLower).tail) hfin.1 (by decide) lower_t_not_x (by decide) (by decide)
+  unfold wireDecode
+  rw [hsplit, heq]
+  simp only [hpst, hmap, hvCL, hvTE]
+  unfold rfcFraming
+  cases rfcBody (framingOf isHead (respond d date).status (Hdrs.vals (respond d date).hdrs nContentLength)
+      (Hdrs.vals (respond d date).hdrs nTransferEncoding)) after with
+  | none => rfl
+  | some br => rfl
+
+
+theorem colonSp_clean : NoCRLF [colon, sp] := ⟨by decide, by decide⟩
+theorem commaSp_clean : NoCRLF [44, sp] := ⟨by decide, by decide⟩
+
+theorem ValueOk.append_clean {k old s : Bytes} (h : ValueOk k old) (hs : NoCRLF s) : ValueOk k (old ++ s) := by
+  induction h with
+  | plain v hv => exact .plain _ (hv.append hs)
+  | more old k' v _ hsame hk' hne hv _ =>
+    have : old ++ [cr, lf] ++ k' ++ [colon, sp] ++ v ++ s = old ++ [cr, lf] ++ k' ++ [colon, sp] ++ (v ++ s) := by
+      simp
+    rw [this]
+    exact .more old k' (v ++ s) ‹_› hsame hk' hne (hv.append hs)
+
+theorem ValueOk.congr {k k2 v : Bytes} (h : ValueOk k v) (hk : Hdrs.nm k = Hdrs.nm k2) : ValueOk k2 v := by
+  induction h with
+  | plain v hv => exact .plain v hv
+  | more old k' v _ hsame hk' hne hv ih =>
+    refine .more old k' v ih ?_ hk' hne hv
+    rw [Hdrs.sameName_iff] at hsame ⊢
+    exact hsame.trans hk
+
+/-- the physical lines of one stored field -/
+theorem ValueOk.pieces {k v : Bytes} (h : ValueOk k v) (hk : NoCRLF k) :
+    ∃ ps : List Bytes, (k ++ [colon, sp] ++ v) ++ [cr, lf] = ps.flatMap (· ++ [cr, lf]) ∧
+      ∀ p ∈ ps, NoCRLF p ∧ p ≠ [] := by
+  induction h with
+  | plain v hv =>
+    refine ⟨[k ++ [colon, sp] ++ v], by simp, ?_⟩
+    intro p hp
+    simp at hp
+    subst hp
+    exact ⟨by simpa using (hk.append colonSp_clean).append hv, by simp⟩
+  | more old k' v _ _ hk' _ hv ih =>
+    obtain ⟨ps, hps, hall⟩ := ih
+    refine ⟨ps ++ [k' ++ [colon, sp] ++ v], ?_, ?_⟩
+    · have : k ++ [colon, sp] ++ (old ++ [cr, lf] ++ k' ++ [colon, sp] ++ v) ++ [cr, lf]
+          = ((k ++ [colon, sp] ++ old) ++ [cr, lf]) ++ ((k' ++ [colon, sp] ++ v) ++ [cr, lf]) := by simp
+      rw [this, hps]
+      simp
+    · intro p hp
+      rcases List.mem_append.mp hp with h1 | h1
+      · exact hall p h1
+      · simp at h1
+        subst h1
+        exact ⟨by simpa using (hk'.append colonSp_clean).append hv, by simp⟩
+
+theorem lines_pieces (P : Bytes → Prop) : ∀ (lines : List Bytes),
+    (∀ l ∈ lines, ∃ ps : List Bytes, l ++ [cr, lf] = ps.flatMap (· ++ [cr, lf]) ∧ ∀ p ∈ ps, P p) →
+    ∃ phys : List Bytes, lines.flatMap (· ++ [cr, lf]) = phys.flatMap (· ++ [cr, lf]) ∧ ∀ p ∈ phys, P p
+  | [], _ => ⟨[], rfl, by intro p hp; simp at hp⟩
+  | l :: t, h => by
+    obtain ⟨ps, hps, hall⟩ := h l (by simp)
+    obtain ⟨phys, hphys, hall2⟩ := lines_pieces P t (fun x hx => h x (by simp [hx]))
+    refine ⟨ps ++ phys, by simp [hps, hphys], ?_⟩
+    intro p hp
+    rcases List.mem_append.mp hp with h1 | h1
+    · exact hall p h1
+    · exact hall2 p h1
+
+theorem get_of_mem {hs : List Hdr} {h : Hdr} {k : Bytes} (hnd : Hdrs.NoDup hs) (hm : h ∈ hs)
+    (hk : Hdrs.sameName h.key k = true) : Hdrs.get hs k = some h.value := by
+  have hf : h ∈ hs.filter (fun x => Hdrs.sameName x.key k) := List.mem_filter.mpr ⟨hm, hk⟩
+  rw [filter_eq_find hs k hnd] at hf
+  unfold Hdrs.get
+  cases hfind : hs.find? (fun x => Hdrs.sameName x.key k) with
+  | none => rw [hfind] at hf; simp at hf
+  | some x => rw [hfind] at hf; simp at hf; subst hf; rfl
+
+theorem fieldsOk_update {hs : List Hdr} (k v : Bytes) (h : FieldsOk hs)
+    (hv : ∀ x ∈ hs, Hdrs.sameName x.key k = true → ValueOk x.key v) : FieldsOk (Hdrs.update hs k v) := by
+  intro x hx
+  unfold Hdrs.update at hx
+  obtain ⟨y, hy, rfl⟩ := List.mem_map.mp hx
+  split
+  · rename_i hs'
+    exact ⟨(h y hy).1, hv y hy hs'⟩
+  · exact h y hy
+
+theorem fieldsOk_update_clean {hs : List Hdr} (k v : Bytes) (h : FieldsOk hs) (hv : NoCRLF v) :
+    FieldsOk (Hdrs.update hs k v) :=
+  fieldsOk_update k v h (fun _ _ _ => .plain v hv)
+
+theorem fieldsOk_snoc {hs : List Hdr} (k v : Bytes) (h : FieldsOk hs) (hk : NoCRLF k) (hv : NoCRLF v) :
+    FieldsOk (hs ++ [⟨k, v⟩]) := by
+  intro x hx
+  rcases List.mem_append.mp hx with h1 | h1
+  · exact h x h1
+  · simp at h1; subst h1; exact ⟨hk, .plain v hv⟩
+
+theorem fieldsOk_set {hs : List Hdr} (k v : Bytes) (h : FieldsOk hs) (hk : NoCRLF k) (hv : NoCRLF v) :
+    FieldsOk (Hdrs.set hs k v) := by
+  unfold Hdrs.set
+  split
+  · exact fieldsOk_update_clean k v h hv
+  · exact fieldsOk_snoc k v h hk hv
+
+theorem fieldsOk_unset {hs : List Hdr} (k : Bytes) (h : FieldsOk hs) : FieldsOk (Hdrs.unset hs k) := by
+  unfold Hdrs.unset
+  split
+  · exact fieldsOk_update_clean k [] h NoCRLF.nil
+  · exact h
+
+theorem fieldsOk_append {hs : List Hdr} (k v : Bytes) (h : FieldsOk hs) (hnd : Hdrs.NoDup hs) (hk : NoCRLF k)
+    (hv : NoCRLF v) : FieldsOk (Hdrs.append hs k v) := by
+  unfold Hdrs.append
+  split
+  · exact h
+  · cases hg : Hdrs.get hs k with
+    | some old =>
+      simp only []
+      split
+      · exact fieldsOk_update_clean k v h hv
+      · apply fieldsOk_update k _ h
+        intro x hx hsame
+        have := get_of_mem hnd hx hsame
+        rw [hg] at this
+        have e : old = x.value := by simpa using this
+        have hval := (h x hx).2
+        rw [← e] at hval
+        have : old ++ [44, sp] ++ v = old ++ ([44, sp] ++ v) := by simp
+        rw [this]
+        exact hval.append_clean (commaSp_clean.append hv)
+    | none => exact fieldsOk_snoc k v h hk hv
+
+/-- http_header_response_insert() keeps the store well-formed: a repeated field becomes a
+    continuation line with the same name -/
+theorem fieldsOk_insert {hs : List Hdr} (k v : Bytes) (h : FieldsOk hs) (hnd : Hdrs.NoDup hs) (hk : NoCRLF k)
+    (hne : k ≠ []) (hv : NoCRLF v) : FieldsOk (Hdrs.insert hs k v) := by
+  unfold Hdrs.insert
+  split
+  · exact h
+  · cases hg : Hdrs.get hs k with
+    | some old =>
+      simp only []
+      split
+      · exact fieldsOk_update_clean k v h hv
+      · apply fieldsOk_update k _ h
+        intro x hx hsame
+        have := get_of_mem hnd hx hsame
+        rw [hg] at this
+        have e : old = x.value := by simpa using this
+        have hval := (h x hx).2
+        rw [← e] at hval
+        refine .more old k v hval ?_ hk hne hv
+        rw [Hdrs.sameName_iff] at hsame ⊢
+        exact hsame.symm
+    | none => exact fieldsOk_snoc k v h hk hv
+
+theorem fieldsOk_of_clean {hs : List Hdr} (h : HdrsClean hs) : FieldsOk hs :=
+  fun x hx => ⟨(h x hx).1, .plain _ (h x hx).2⟩
+
+theorem get_mem' {hs : List Hdr} {k v : Bytes} (h : Hdrs.get hs k = some v) :
+    ∃ x ∈ hs, Hdrs.sameName x.key k = true ∧ x.value = v := by
+  unfold Hdrs.get at h
+  cases hf : hs.find? (fun h => Hdrs.sameName h.key k) with
+  | none => simp [hf] at h
+  | some x =>
+    simp only [hf, Option.map_some, Option.some.injEq] at h
+    exact ⟨x, List.mem_of_find?_eq_some hf, by simpa using List.find?_some hf, h⟩
+
+theorem errKeep_fieldsOk (d : RespIn) (h : FieldsOk d.hdrs) : FieldsOk (errKeep d) := by
+  unfold errKeep
+  split
+  · split
+    · rename_i v hg
+      split
+      · intro x hx; simp at hx
+      · obtain ⟨x, hx, hsame, hxv⟩ := get_mem' hg
+        intro y hy
+        simp at hy
+        subst hy
+        have hk : NoCRLF nWwwAuthenticate := ⟨by decide, by decide⟩
+        refine ⟨hk, ?_⟩
+        have := (h x hx).2
+        rw [hxv] at this
+        exact this.congr ((Hdrs.sameName_iff _ _).mp hsame)
+    · intro x hx; simp at hx
+  · intro x hx; simp at hx
+
+theorem wpStatus_fieldsOk (d : RespIn) (h : FieldsOk d.hdrs) : FieldsOk (wpStatus d).hdrs := by
+  by_cases hb : isBodiless d.status = true
+  · have hcases : d.status = 204 ∨ d.status = 205 ∨ d.status = 304 := by
+      simp only [isBodiless, Bool.or_eq_true, decide_eq_true_eq] at hb
+      rcases hb with (h1 | h1) | h1
+      · exact Or.inl h1
+      · exact Or.inr (Or.inl h1)
+      · exact Or.inr (Or.inr h1)
+    rcases hcases with h1 | h1 | h1
+    · rw [wpStatus_2045 d (Or.inl h1)]; exact fieldsOk_unset _ (fieldsOk_unset _ h)
+    · rw [wpStatus_2045 d (Or.inr h1)]; exact fieldsOk_unset _ (fieldsOk_unset _ h)
+    · rw [wpStatus_304 d h1]; exact fieldsOk_unset _ h
+  · by_cases he : (400 ≤ d.status && d.status < 600 && errdocApplies d) = true
+    · have hr : (400 ≤ d.status && d.status < 600) = true := by
+        simp only [Bool.and_eq_true] at he ⊢; exact he.1
+      have ha : errdocApplies d = true := by
+        simp only [Bool.and_eq_true] at he; exact he.2
+      rw [wpStatus_err d hr ha]
+      exact fieldsOk_set _ _ (errKeep_fieldsOk d h) nCT_clean lit_clean_texthtml
+    · rw [wpStatus_normal d (by simpa using hb) (by simpa using he)]
+      exact h
+
+theorem wpFraming_fieldsOk (d : RespIn) (st : RespSt) (h : FieldsOk st.hdrs) (hnd : Hdrs.NoDup st.hdrs) :
+    FieldsOk (wpFraming d st).hdrs := by
+  unfold wpFraming
+  repeat' split
+  all_goals first
+    | exact h
+    | exact fieldsOk_set _ _ h nCL_clean (natToDec_clean _)
+    | exact fieldsOk_set _ _ h nCL_clean lit_clean_zero
+    | exact fieldsOk_append nTransferEncoding (ofString "chunked") h hnd nTE_clean lit_clean_chunked
+
+theorem wpHead_fieldsOk (d : RespIn) (st : RespSt) (h : FieldsOk st.hdrs) : FieldsOk (wpHead d st).hdrs := by
+  unfold wpHead
+  split
+  · simp only [bodyClear]; exact fieldsOk_unset _ h
+  · exact h
+
+theorem finalHdrs_fieldsOk (d : RespIn) (st : RespSt) (h : FieldsOk st.hdrs) : FieldsOk (finalHdrs d st) := by
+  unfold finalHdrs
+  simp only []
+  repeat' split
+  all_goals first
+    | exact h
+    | exact fieldsOk_set _ _ h nCO_clean lit_clean_upgrade
+    | exact fieldsOk_set _ _ h nCO_clean lit_clean_close
+    | exact fieldsOk_set _ _ h nCO_clean lit_clean_keepalive
+    | exact fieldsOk_unset _ h
+    | exact fieldsOk_unset _ (fieldsOk_set _ _ h nCO_clean lit_clean_upgrade)
+    | exact fieldsOk_unset _ (fieldsOk_set _ _ h nCO_clean lit_clean_close)
+    | exact fieldsOk_unset _ (fieldsOk_set _ _ h nCO_clean lit_clean_keepalive)
+
+theorem respond_fieldsOk (d : RespIn) (date : Bytes) (hso : StoreOk d.hdrs) (h : FieldsOk d.hdrs) :
+    FieldsOk (respond d date).hdrs := by
+  unfold respond writePrepare
+  exact finalHdrs_fieldsOk d _ (wpHead_fieldsOk d _
+    (wpFraming_fieldsOk d _ (wpStatus_fieldsOk d h) (wpStatus_storeOk d hso).1))
+
+/-- physical lines of a header section whose store may hold repeated fields -/
+theorem headLines_pieces (ver11 : Bool) (status : Nat) (hs : List Hdr) (date : Bytes) (tag : Option Bytes)
+    (h : FieldsOk hs) (hd : NoCRLF date) (ht : ∀ t, tag = some t → NoCRLF t) :
+    ∃ phys : List Bytes, renderHead (headLines ver11 status hs date tag) = renderHead phys ∧
+      ∀ p ∈ phys, NoCRLF p ∧ p ≠ [] := by
+  have hone : ∀ l : Bytes, NoCRLF l → l ≠ [] →
+      ∃ ps : List Bytes, l ++ [cr, lf] = ps.flatMap (· ++ [cr, lf]) ∧ ∀ p ∈ ps, NoCRLF p ∧ p ≠ [] :=
+    fun l hl hne => ⟨[l], by simp, by intro p hp; simp at hp; subst hp; exact ⟨hl, hne⟩⟩
+  have hall : ∀ l ∈ headLines ver11 status hs date tag,
+      ∃ ps : List Bytes, l ++ [cr, lf] = ps.flatMap (· ++ [cr, lf]) ∧ ∀ p ∈ ps, NoCRLF p ∧ p ≠ [] := by
+    intro l hl
+    unfold headLines at hl
+    rcases List.mem_cons.mp hl with rfl | hl
+    · apply hone
+      · cases ver11
+        · exact NoCRLF.append ⟨by decide, by decide⟩ (statusText_clean status)
+        · exact NoCRLF.append ⟨by decide, by decide⟩ (statusText_clean status)
+      · cases ver11 <;> simp [ofString]
+    · rcases List.mem_append.mp hl with hl | hl
+      · rcases List.mem_append.mp hl with hl | hl
+        · obtain ⟨x, hx, rfl⟩ := List.mem_map.mp hl
+          have hx' := (List.mem_filter.mp hx).1
+          exact (h x hx').2.pieces (h x hx').1
+        · split at hl
+          · simp at hl
+          · simp at hl; subst hl
+            exact hone _ (NoCRLF.append ⟨by decide, by decide⟩ hd) (by simp [ofString])
+      · cases tag with
+        | none => simp at hl
+        | some t =>
+          simp only [] at hl
+          split at hl
+          · simp at hl
+          · simp at hl; subst hl
+            exact hone _ (NoCRLF.append ⟨by decide, by decide⟩ (ht t rfl)) (by simp [ofString])
+  obtain ⟨phys, hphys, hP⟩ := lines_pieces (fun p => NoCRLF p ∧ p ≠ []) _ hall
+  exact ⟨phys, by unfold renderHead; rw [hphys], hP⟩
 
 end LtVerif
